@@ -217,7 +217,7 @@ PROPS["C11"] = {
 
 PROPS["C10"] = {
     "level": "other",
-    "rules": [p_symbols.capacity_info, p_wire.gate_hint, p_wire.prov_sym, p_symbols.ord_rule, p_symbols.prov_filter, p_plan.cost_write, p_b256.b256_sync, p_plan.val_size],
+    "rules": [p_symbols.capacity_info, p_wire.gate_hint, p_wire.prov_sym, p_symbols.ord_rule, p_symbols.prov_filter, p_plan.cost_write, p_b256.b256_sync, p_plan.val_size, p_modes.dom_mode],
     "explanation": "Clause-level claim (gates and tie-break only). Minimality itself quantifies over every alternative legal encoding of "
                    "every input; its truth lives in the arithmetic of six cost models and their agreement with six encoders and is NOT "
                    "decided (known: ABCDEFGH12345678 gets a 16-codeword symbol where ASCII needs 12 - the EDIFACT four-final-digits "
@@ -226,7 +226,8 @@ PROPS["C10"] = {
                    "GATE-HINT - the reservation hint is Some for every non-empty list, so it never turns into a refusal; TIE-ORDER - the "
                    "returned symbol is the first of the BTreeSet order (capacity, then diagonal; keys pairwise distinct) that is big enough; "
                    "and the planner/encoder table agreements B256-SYNC, COST-WRITE, VAL-SIZE (see C18), which are necessary for the "
-                   "planner's minimum to be realised by the encoder.",
+                   "planner's minimum to be realised by the encoder; DOM-MODE - each mode's plans are created under the test for that same mode "
+                   "(an enabled mode guarded by another mode's flag is never offered).",
     "assumptions": ["default cargo features"],
     "technique": "table inequalities + provenance rules over THIR",
 }
